@@ -152,7 +152,7 @@ def variants(h):
     if name == "bcrypt":
         out = [{"ident": i} for i in ("2", "2a", "2y", "2b")]
     elif name in ("bcrypt_sha256",):
-        out = [{"ident": "2a"}, {"ident": "2b"}, {"version": 1}, {"version": 2, "ident": "2a"}]
+        out = [{"ident": "2b"}, {"version": 1}, {"version": 1, "ident": "2a"}, {"version": 2}]
     elif name == "django_bcrypt_sha256":
         out = [{}, {"ident": "2a"}]
     elif name == "phpass":
@@ -165,8 +165,6 @@ def variants(h):
         out = [{}, {"algs": "sha-1,sha-256"}, {"algs": ["sha-1", "md5", "sha-512"]}, {"algs": "sha-1"}]
     elif name == "sun_md5_crypt":
         out = [{}, {"bare_salt": True}]
-    elif name in ("sha256_crypt", "sha512_crypt"):
-        out = [{}, {"implicit_rounds": False}]
     assert all(set(v) <= set(sk) | {"version"} or name in ("bcrypt_sha256",) for v in out), (name, out, sk)
     return out
 
